@@ -10,6 +10,7 @@ import (
 	"github.com/orda-io/orda/client/pkg/operations"
 	"github.com/orda-io/orda/client/pkg/utils"
 	"github.com/wI2L/jsondiff"
+	"reflect"
 	"strconv"
 	"strings"
 )
@@ -270,8 +271,8 @@ func (its *document) PutToObject(key string, value interface{}) (Document, error
 	if err := its.assertLocalOp("PutToObject", TypeJSONObject, false); err != nil {
 		return nil, err
 	}
-	if value == nil {
-		return nil, errors.DatatypeIllegalParameters.New(its.L(), "null value is not allowed")
+	if err := assertNoNullValue([]interface{}{value}); err != nil {
+		return nil, errors.DatatypeIllegalParameters.New(its.L(), err.Error())
 	}
 	op := operations.NewDocPutInObjOperation(its.snapshot().getCreateTime(), key, value)
 	removed, err := its.SentenceInTx(its.TxCtx, op, true)
@@ -450,11 +451,38 @@ func (its *document) toDocument(child jsonType) Document {
 
 func assertNoNullValue(values []interface{}) error {
 	for _, v := range values {
-		if v == nil {
+		if hasNullValue(reflect.ValueOf(v)) {
 			return fmt.Errorf("null value is not allowed")
 		}
 	}
 	return nil
+}
+
+// hasNullValue visits a value as createJSONTypeFromReflectValue() does, and reports whether it contains
+// a null, i.e., a nil interface or a nil pointer, at any depth.
+func hasNullValue(rv reflect.Value) bool {
+	switch rv.Kind() {
+	case reflect.Invalid:
+		return true
+	case reflect.Ptr, reflect.Interface:
+		return hasNullValue(rv.Elem())
+	case reflect.Struct:
+		toMap, err := utils.StructToMap(rv.Interface())
+		return err == nil && hasNullValue(reflect.ValueOf(toMap))
+	case reflect.Map:
+		for iter := rv.MapRange(); iter.Next(); {
+			if hasNullValue(iter.Value()) {
+				return true
+			}
+		}
+	case reflect.Slice, reflect.Array:
+		for i := 0; i < rv.Len(); i++ {
+			if hasNullValue(rv.Index(i)) {
+				return true
+			}
+		}
+	}
+	return false
 }
 
 func (its *document) assertLocalOp(opName string, ofJSON TypeOfJSON, workOnGarbage bool) errors.OrdaError {
